@@ -206,6 +206,18 @@ def parsePhPlugins (pre : String) (s : String) : Option (List Phases.Plugin) :=
     | [r, '~'] => (retOf? r).map fun r => (⟨s!"{pre}{i}", r, true⟩ : Phases.Plugin)
     | _ => none
 
+/-- which of `validateAdvisories`' complaints apply to a finding list (specification side: by inspection of the list) -/
+def errKinds (fs : List (Option Finding)) : List String :=
+  let nilf := fs.any (·.isNone)
+  let noadv := fs.any fun x => match x with | some f => f.adv.isNone | none => false
+  let noid := fs.any fun x => match x with | some f => (match f.adv with | some a => a.id.isNone | none => false) | none => false
+  let mism := fs.any fun x => fs.any fun y => match x, y with
+    | some f, some g => (match f.adv, g.adv with
+      | some a, some b => a.id.isSome && a.id == b.id && a != b
+      | _, _ => false)
+    | _, _ => false
+  (if nilf then ["nilf"] else []) ++ (if noadv then ["noadv"] else []) ++ (if noid then ["noid"] else []) ++ (if mism then ["mismatch"] else [])
+
 def handle (line : String) : String :=
   match line.splitOn " " with
   | ["scan", nfx, roots, sts, dets] =>
@@ -255,7 +267,13 @@ def handle (line : String) : String :=
         s!"plug={joinWith "," (out.pluginStatus.map statusStr)} plugset={joinWith "," (sortStrs (out.pluginStatus.map statusStr))} " ++
         s!"plugkeys={joinWith "," (out.pluginStatus.map fun s => hexB (nameBytes s.name))} pk={idsStr out.packages true} mut=0"
       model ++ s!" wf={boolStr nocancel} cons={boolStr cons} consall={boolStr consall} exf={boolStr (!exF.isEmpty)} " ++
-        s!"sst={if consall then "ok" else "failed"} sfind={joinWith "," (sortStrs (sfind.map findingStr))} sexf={joinWith "," (sortStrs (exF.map findingStr))} " ++
+        s!"sst={if consall then "ok" else "failed"} sfind={joinWith "," (sortStrs (sfind.map findingStr))} " ++
+        -- inconsistent findings: nothing may be emitted — except the extractors' own findings when THEY are consistent and it
+        -- was the detectors' findings that `detector.Run` discarded (the disjunct of C20_inconsistent_scan_partial)
+        s!"sexf={if !cons && consistentB (exF.map some) then joinWith "," (sortStrs (exF.map findingStr)) else "-"} " ++
+        -- the kinds of inconsistency present among all findings: the failure reason must be one of them
+        s!"serrs={joinWith "," (errKinds (allFindings inp))} " ++
+        s!"splugset={joinWith "," (sortStrs ((inp.fsStatus ++ inp.stStatus ++ specStatus ds px).map statusStr))} " ++
         s!"sfkeys={joinWith "," (sfkeys.map keyStr)} splugkeys={joinWith "," (splug.map hexB)} " ++
         s!"sdet={joinWith "," ((specStatus ds px).map statusStr)} sidx={sidx} scalls={joinWith "," (ds.map (·.name))}"
     | _, _, _, _ => "bad-op"
@@ -272,7 +290,9 @@ def handle (line : String) : String :=
       let stS := fun (l : List (String × Bool)) => joinWith "," (l.map fun (n, f) => s!"{n}:{if f then "failed" else "ok"}")
       s!"started={joinWith "," out.started} st={if out.failed then "failed" else "ok"} pst={stS out.status} " ++
       s!"sstarted={joinWith "," (Phases.specStarted before us)} sall={joinWith "," (Phases.names us)} " ++
-      s!"smustfail={boolStr (!(Phases.specRemaining before us).isEmpty)} sworkleft={boolStr (Phases.specStarted before us != Phases.names us)}"
+      s!"smustfail={boolStr (!(Phases.specRemaining before us).isEmpty)} sworkleft={boolStr (Phases.specStarted before us != Phases.names us)} " ++
+      -- statuses of standalone extractors and detectors when nobody cancels (C10_plugins_nocancel_status)
+      s!"spst={if !before && us.all (fun u => !u.cancels) then stS (Phases.specStatusNoCancel sts dets) else "?"}"
     | _, _, _, _, _ => "bad-op"
   | _ => "bad-op"
 
